@@ -39,7 +39,7 @@ def scene_records(scene: dict) -> dict[str, dict]:
     edges = scene["edges"]
     region = scene.get("region", "box")
     seed = scene["data_seed"]
-    wk = dict(w_kind=scene.get("w_kind", "dyadic"))
+    wk = dict(w_kind=scene.get("w_kind", "dyadic"), nclumps=scene.get("k", 4))
     out = {}
     out["ref"] = wl.gen_records(
         seed * 4 + 0, scene["n_ref"], region=region, has_w=scene.get("w_ref", True), has_z=True, zedges=edges, **wk
